@@ -602,6 +602,17 @@ def run_c12(ctx):
         rows = [[rng.randint(-50, 50)] + [rng.choice([-2, -1, 0, 1, 1, 3]) for _ in range(nc)] for _ in range(rng.randint(1, 3))]
         cases.append({"rows": rows, "bounds": bounds, "src": "random", "k": k, "bounds_dtype": bd, "ids": ["w%d" % j for j in range(nc)]})
         ctx.region("narrow_bounds_table")
+    # every coefficient magnitude up to 200 (both signs) with right-hand sides that divide exactly or miss by one: the rounding of the
+    # tightening must be exact integer arithmetic (a reciprocal in floating point is off by one for 49, 98, 103, 107, ...)
+    kk = 0
+    for a in range(2, 201 if q else 1001):
+        for sgn in (1, -1):
+            m = 1 + (a % 4)
+            for off in ((0,) if q and a % 3 else (0, 1, -1)):
+                cases.append({"rows": [[sgn * a * m + off, sgn * a]], "bounds": [[0, 6]], "src": "family", "k": kk}); kk += 1
+            if a % 5 == 0:
+                cases.append({"rows": [[sgn * a * m, sgn * a, 1], [0, 1, -1]], "bounds": [[0, 6], [0, 1]], "src": "family", "k": kk}); kk += 1
+    ctx.region("exact_division_family", kk)
     for k in range(40 if q else 400):
         nc = rng.randint(1, 4)
         rows = [[rng.randint(-2, 3)] + [rng.choice([-2, -1, 0, 1, 1, 2]) for _ in range(nc)] for _ in range(rng.randint(1, 3))]
